@@ -513,4 +513,122 @@ theorem closed_reach (F : Nat → List Nat) (start : Nat) (d : List Nat) (hc : C
     · cases h1
     · exact h1
 
+
+/-! ### nothing but the requested instance and what it reaches is loaded -/
+
+/-- `a` mentions `b` (`a` an instance of the file) -/
+def Mentions (es : List Entry) (a b : Nat) : Prop := ∃ refs, refsOf es a = some refs ∧ b ∈ refs
+
+theorem Reach.head {R : Nat → Nat → Prop} {a b c : Nat} (h : R a b) (hr : Reach R b c) : Reach R a c := by
+  induction hr with
+  | single h2 => exact Reach.tail (Reach.single h) h2
+  | tail _ h2 ih => exact Reach.tail ih h2
+
+theorem loadRefs_new (es : List Entry) (f : Nat)
+    (IH : ∀ c id c' b, load true es f c id = .ok (c', b) → ∀ x, c'.has x = true →
+      c.has x = true ∨ x = id ∨ Reach (Mentions es) id x) :
+    ∀ (refs : List Nat) (c : Cache) (acc : List (Nat × Bool)) (c' : Cache) (res : List (Nat × Bool)),
+      loadRefsWith (load true es f) c refs acc = .ok (c', res) → ∀ x, c'.has x = true →
+        c.has x = true ∨ ∃ r ∈ refs, x = r ∨ Reach (Mentions es) r x := by
+  intro refs
+  induction refs with
+  | nil =>
+    intro c acc c' res h x hx
+    simp only [loadRefsWith] at h
+    injection h with h1; injection h1 with h2 _
+    rw [← h2] at hx; exact Or.inl hx
+  | cons r t ih =>
+    intro c acc c' res h x hx
+    simp only [loadRefsWith] at h
+    cases hl : load true es f c r with
+    | ok p =>
+      obtain ⟨c1, b⟩ := p
+      simp only [hl] at h
+      rcases ih c1 _ c' res h x hx with h1 | ⟨q, hq, hxq⟩
+      · rcases IH c r c1 b hl x h1 with h2 | h2 | h2
+        · exact Or.inl h2
+        · exact Or.inr ⟨r, by simp, Or.inl h2⟩
+        · exact Or.inr ⟨r, by simp, Or.inr h2⟩
+      · exact Or.inr ⟨q, List.mem_cons_of_mem _ hq, hxq⟩
+    | fail => simp [hl] at h
+    | crash => simp [hl] at h
+    | outOfFuel => simp [hl] at h
+
+theorem load_new (es : List Entry) : ∀ (f : Nat) (c : Cache) (id : Nat) (c' : Cache) (b : Bool),
+    load true es f c id = .ok (c', b) → ∀ x, c'.has x = true → c.has x = true ∨ x = id ∨ Reach (Mentions es) id x := by
+  intro f
+  induction f with
+  | zero => intro c id c' b h; simp [load] at h
+  | succ f ih =>
+    intro c id c' b h x hx
+    unfold load at h
+    by_cases hc : c.has id = true
+    · simp only [hc, ↓reduceIte] at h
+      injection h with h1; injection h1 with h2 _
+      rw [← h2] at hx; exact Or.inl hx
+    · have hc' : c.has id = false := by simpa using hc
+      simp only [hc', Bool.false_eq_true, ↓reduceIte] at h
+      cases hr : refsOf es id with
+      | none =>
+        simp only [hr] at h
+        injection h with h1; injection h1 with h2 _
+        rw [← h2] at hx; exact Or.inl hx
+      | some refs =>
+        simp only [hr, ↓reduceIte] at h
+        cases hl : loadRefsWith (load true es f) (c ++ [{ id := id, resolved := none }]) refs [] with
+        | ok p =>
+          obtain ⟨c1, res⟩ := p
+          simp only [hl] at h
+          injection h with h1; injection h1 with h2 _
+          rw [← h2, has_set] at hx
+          rcases loadRefs_new es f ih refs _ [] c1 res hl x hx with h3 | ⟨r, hrm, hxr⟩
+          · rw [has_append] at h3
+            simp only [Bool.or_eq_true, beq_iff_eq] at h3
+            rcases h3 with h4 | h4
+            · exact Or.inl h4
+            · exact Or.inr (Or.inl h4.symm)
+          · have hm : Mentions es id r := ⟨refs, hr, hrm⟩
+            rcases hxr with h5 | h5
+            · rw [h5]; exact Or.inr (Or.inr (Reach.single hm))
+            · exact Or.inr (Or.inr (Reach.head hm h5))
+        | fail => simp [hl] at h
+        | crash => simp [hl] at h
+        | outOfFuel => simp [hl] at h
+
+theorem loadAll_new (es : List Entry) (fuel : Nat) : ∀ (ids : List Nat) (c c' : Cache) (bs : List Bool),
+    loadAll true es fuel c ids = .ok (c', bs) → ∀ x, c'.has x = true →
+      c.has x = true ∨ ∃ id ∈ ids, x = id ∨ Reach (Mentions es) id x := by
+  intro ids
+  induction ids with
+  | nil =>
+    intro c c' bs h x hx
+    simp only [loadAll] at h
+    injection h with h1; injection h1 with h2 _
+    rw [← h2] at hx; exact Or.inl hx
+  | cons i t ih =>
+    intro c c' bs h x hx
+    simp only [loadAll] at h
+    cases hl : load true es fuel c i with
+    | ok p =>
+      obtain ⟨c1, b⟩ := p
+      simp only [hl] at h
+      cases hl2 : loadAll true es fuel c1 t with
+      | ok q =>
+        obtain ⟨c2, bs2⟩ := q
+        simp only [hl2] at h
+        injection h with h1; injection h1 with h2 _
+        rw [← h2] at hx
+        rcases ih c1 c2 bs2 hl2 x hx with h3 | ⟨j, hj, hxj⟩
+        · rcases load_new es fuel c i c1 b hl x h3 with h4 | h4 | h4
+          · exact Or.inl h4
+          · exact Or.inr ⟨i, by simp, Or.inl h4⟩
+          · exact Or.inr ⟨i, by simp, Or.inr h4⟩
+        · exact Or.inr ⟨j, List.mem_cons_of_mem _ hj, hxj⟩
+      | fail => simp [hl2] at h
+      | crash => simp [hl2] at h
+      | outOfFuel => simp [hl2] at h
+    | fail => simp [hl] at h
+    | crash => simp [hl] at h
+    | outOfFuel => simp [hl] at h
+
 end StepModel.Lazy
